@@ -560,6 +560,9 @@ func init() {
 					specs = append(specs, s)
 				}
 			}
+			if !d.Quick() {
+				specs = d.Replicate(specs, 3)
+			}
 			s := d.NewSpec("sinks", "sinks", 0, 1)
 			s.TimeoutS = 300
 			specs = append(specs, s)
